@@ -343,3 +343,47 @@ def r13c(ctx: Ctx, fq: str, var_tables: set[str], ordering: str = "ordering") ->
             need = "a variable id" if ts == "VAR" else "a position in the ordering"
             out.append(viol("R13c", fq, inst, f"`{unparse(node)}`: the table `{node.value.id}` is indexed by {need} but is read with {what}: with a non-identity ordering a variable gets the layer / arguments of another variable", site))
     return out
+
+
+# ------------------------------------------------------------------------------- R13d: row counters
+def r13d(ctx: Ctx, fq: str = "cirkit.backend.torch.queries.IntegrateQuery.scopes_to_mask") -> list[Ob]:
+    """R13d -- per-sample rows.  A tensor allocated with ``len(S)`` rows (one per sample of the batch S)
+    is addressed, when rows are written by index, with the counter of ``enumerate(S)`` over *that same
+    sequence*: a counter over a filtered / re-built copy of S numbers the surviving samples 0, 1, ..
+    and writes sample k's entries into another sample's row whenever an earlier sample was dropped
+    (e.g. a sample that marginalises nothing)."""
+    f = ctx.repo.func(fq)
+    ld = LocalDefs(f.node)
+    out: list[Ob] = []
+    # sequences whose length sizes an allocation
+    sized: set[str] = set()
+    for n in ast.walk(f.node):
+        if isinstance(n, ast.Call) and isinstance(n.func, ast.Name) and n.func.id == "len" and n.args and isinstance(n.args[0], ast.Name):
+            sized.add(n.args[0].id)
+    k = 0
+    for n in ast.walk(f.node):
+        if not (isinstance(n, ast.Call) and isinstance(n.func, ast.Name) and n.func.id == "enumerate" and n.args):
+            continue
+        k += 1
+        x = n.args[0]
+        site = f"{f.module.relpath}:{n.lineno}"
+        inst = f"enumerate#{k}:{unparse(x)[:30]}"
+        if not isinstance(x, ast.Name):
+            out.append(unres("R13d", fq, inst, "enumerated expression is not a plain name", site))
+            continue
+        if x.id in sized and x.id in ld.params:
+            out.append(ok("R13d", fq, inst, f"rows counted over the batch sequence `{x.id}` itself", site))
+            continue
+        defs = ld.defs.get(x.id, [])
+        filtered = [d for d in defs if isinstance(d, (ast.ListComp, ast.GeneratorExp)) and any(g.ifs for g in d.generators)]
+        rebuilt = [d for d in defs if isinstance(d, ast.Call) and isinstance(d.func, ast.Name) and d.func.id in ("filter", "sorted", "set")]
+        if filtered or rebuilt:
+            src = unparse((filtered or rebuilt)[0])[:60]
+            out.append(viol("R13d", fq, inst, f"the row counter runs over `{x.id}` = `{src}`, a filtered copy of the batch: after a dropped sample (e.g. an empty scope) every later sample is written into the previous sample's row", site))
+        elif x.id in sized:
+            out.append(ok("R13d", fq, inst, f"rows counted over `{x.id}`, the sequence that sizes the mask", site))
+        else:
+            out.append(unres("R13d", fq, inst, f"`{x.id}` is neither the sized batch sequence nor a recognised filtered copy", site))
+    if k == 0:
+        out.append(unres("R13d", fq, "enumerate", "no enumerate(..) in the function (another formulation): no verdict", f.loc))
+    return out
